@@ -13,6 +13,7 @@ def actor : Op → Option Nat
   | .addServer m _ => some m
   | .removeServer m _ => some m
   | .removeAll m => some m
+  | .exitCtx m _ => some m
   | .addDest m _ _ => some m
   | .addFilter m _ _ _ _ => some m
   | .addSubs m _ _ _ _ => some m
@@ -69,6 +70,17 @@ theorem step_frame {w : World} (hw : WInv w) (op : Op) (wb : WB w op) (m : Nat) 
   | removeAll m0 =>
     simp only [actor, Option.some.injEq] at ha; subst ha
     rw [(removeAll_exact hw hid).2.1 s']
+    by_cases e : s' ∈ w.servers m0
+    · simp only [e, if_true]; exact purge_frame hc
+    · simp only [e, if_false]; exact Frame.refl id _
+  | exitCtx m0 exc =>
+    simp only [actor, Option.some.injEq] at ha; subst ha
+    have hst : (step w (.exitCtx m0 exc)).1.store s' = (step w (.removeAll m0)).1.store s' := by
+      simp only [step, hid]
+      generalize removeAllLoop m0 w (w.servers m0) = r
+      obtain ⟨w1, out1⟩ := r
+      cases out1 <;> rfl
+    rw [hst, (removeAll_exact hw hid).2.1 s']
     by_cases e : s' ∈ w.servers m0
     · simp only [e, if_true]; exact purge_frame hc
     · simp only [e, if_false]; exact Frame.refl id _
